@@ -23,6 +23,60 @@ def app(prop, theorems, explanation, assumptions, facts=None):
 
 
 PROPS = {
+    "C07": {
+        "module": "Shutter.Properties.C07",
+        "theorems": ["C07_public", "C07_agree", "C07_share_matches", "C07_degree", "C07_decrypts", "C07_all_honest",
+                     "C07_tolerates", "C07_no_abort"],
+        "driver": {"pkg": "./cmd/dkgcheck", "args": ["-prop", "C07"]},
+        "trusted_base": [KERNEL + " (these theorems use Mathlib: polynomials, and C01's Lagrange lemma)", CORR,
+                         "dkgrig: the real shuttermint application driven block by block (no tendermint consensus, no peers), n real "
+                         "keyper loops (smobserver.SyncAppWithDB + fx.SendShutterMessages) over pgfake + kdb, Byzantine keypers as "
+                         "rewrites of their outgoing transactions; crypto/rand replaced by a seeded stream during a run; "
+                         "handleOnChainChanges (L1 keyper-set votes) is replaced by rig-signed transactions",
+                         "modelled, not verified: shlib/puredkg (external library: its isCorrupt / polyEval / ComputeResult are "
+                         "transcribed in Model/Dkg.lean and compared on every honest keyper's final state), Feldman commitments and "
+                         "ECIES (VerifyPolyEval i v c <-> v = f(x_i) is the interpretation hypothesis, computed by the real check in the "
+                         "rig), BLS12-381"],
+        "explanation": "Theorems (Lean + Mathlib): who takes part is a function of the chain-visible data only (C07_public), so all "
+                       "keypers that succeed after seeing the same chain hold the same key polynomial - same eon public key and public "
+                       "key share vector (C07_agree); on success a keyper's secret share is that polynomial at its own point "
+                       "(C07_share_matches); the polynomial has degree < t (C07_degree) and any t epoch shares interpolate to the key "
+                       "for the eon public key (C07_decrypts, via C01); all honest and in phase => success with all n (C07_all_honest); "
+                       "at least t non-corrupt dealers => never 'too few' (C07_tolerates); an accusation on the chain protects the "
+                       "accuser from aborting (C07_no_abort). Complete key generations run over the real app and real keyper loops "
+                       "with random Byzantine strategies from the property's alphabet, sizes 3/2 .. 5/3, random block schedules; "
+                       "agreement, share/public-share match and trial decryption with every t-subset are checked directly, and every "
+                       "honest keyper's recorded outcome is compared with the model on the state it computed the result from.",
+        "assumptions": ["all honest keypers see the same chain (shuttermint consensus is outside the model)",
+                        "phase placement by block height (dkgphase, shiftPhases) is exercised by the runs, not modelled: a message "
+                        "outside its phase simply is not in the state the model is given"],
+    },
+    "C08": {
+        "module": "Shutter.Properties.C08",
+        "theorems": ["C08_same_db", "C08_exactly_once", "C08_outbox", "C08_scheduled_once", "C08_sql_pinned"],
+        "driver": {"pkg": "./cmd/dkgcheck", "args": ["-prop", "C08"]},
+        "facts": ["sql"],
+        "trusted_base": [KERNEL, CORR,
+                         "dkgrig + pgfake: a crash is the server dropping the connection before executing a round trip or after "
+                         "applying it (for a commit: after the commit is applied) without replying; the keyper's process objects are "
+                         "then discarded and rebuilt over the same committed database; a crash while waiting in a broadcast leaves the "
+                         "transaction in the mempool",
+                         "the key generation logic is a parameter of the model (apply); the hypothesis RoundTrip (stored state reads "
+                         "back) is checked on the real codec for every state a run stored",
+                         "operating-system level durability (fsync of PostgreSQL) is outside the model"],
+        "explanation": "Theorems (Lean, for every key generation logic `apply` and every codec that reads back what it stored): through "
+                       "any sequence of block transactions (committed, committed with the reply lost, aborted), restarts and send "
+                       "attempts (row deleted, accepted but not deleted, refused) the committed database - last applied block, stored "
+                       "state, outbox, id counter - equals that of the run without crashes (C08_same_db, C08_scheduled_once); the last "
+                       "applied block advances by exactly one per committed transaction (C08_exactly_once); what is handed to the chain "
+                       "is in queue order, possibly repeated, never overtaken, and nothing queued before the oldest remaining row is "
+                       "missing (C08_outbox). The examples show that a codec that forgets 'nothing received yet' breaks it - the defect "
+                       "found and repaired. One observed keyper is killed at evenly spaced (thorough: all) database round trips in "
+                       "both modes, at every outbox deletion and broadcast (thorough: also pairs); every run is compared with the "
+                       "crash-free run, its trace is checked, every stored state is stored and loaded again, and its operations are "
+                       "replayed on the model (last block, id counter, outbox, and the sequence of messages the chain received).",
+        "assumptions": ["messages may reach shuttermint twice (at-least-once delivery); the application refuses the duplicate"],
+    },
     "C15": {
         "module": "Shutter.Properties.C15",
         "theorems": ["C15_exact", "C15_atomic", "C15_domain_canonical", "C15_domain_fork", "sync_inv", "reach_inv", "C15_sql_pinned"],
